@@ -758,6 +758,21 @@ func classify(c *C13Case) (classes []string, nontrivial bool) {
 		mntHas[m.Destination] = true
 	}
 	keyed("mnt", ents, func(k string) bool { return mntHas[k] })
+	for _, m := range a.Mounts {
+		if _, rm := marked(m.Dest); rm {
+			continue
+		}
+		var props []string
+		for _, o := range m.Options {
+			if o == "rprivate" || o == "rshared" || o == "rslave" {
+				props = append(props, o)
+			}
+		}
+		if len(props) >= 2 && props[0] != "rprivate" {
+			add("mnt:earlier_shared_or_slave_propagation_overridden_by_last_rprivate")
+			break
+		}
+	}
 	if len(a.Mounts) > 0 {
 		// shape of the resulting mount table
 		var dests []string
@@ -1294,6 +1309,28 @@ func TestExh_C13(t *testing.T) {
 			t.Fatalf("C13: %s", o.Fail)
 		}
 		n++
+	}
+	// several propagation options in one mount: the last one (rprivate) counts
+	for _, opts := range [][]string{
+		{"rbind", "rshared", "rprivate"}, {"rslave", "rprivate"}, {"rshared", "rslave", "ro", "rprivate", "nosuid"},
+		{"rprivate", "rshared", "rprivate"}, {"rslave", "rslave", "rprivate", "rprivate"},
+	} {
+		for _, rootProp := range []string{"", "rslave"} {
+			s := rspec.Spec{Version: "1.1.0", Process: &rspec.Process{Cwd: "/", Rlimits: []rspec.POSIXRlimit{{Type: "RLIMIT_CORE", Hard: 1, Soft: 1}}},
+				Linux:  &rspec.Linux{RootfsPropagation: rootProp},
+				Mounts: []rspec.Mount{{Destination: "/a/b", Type: "bind", Source: "/s", Options: []string{"rshared"}}}}
+			c := C13Case{Spec: s, Reps: 4, Adj: Adj{
+				Mounts:  []AdjMount{{Dest: "/a", Type: "bind", Source: "/src/a", Options: opts}, {Dest: "/z", Type: "tmpfs", Source: "tmpfs"}},
+				Rlimits: []AdjRlimit{{Type: "RLIMIT_NOFILE", Hard: 10, Soft: 5}},
+			}}
+			o := runC13(c)
+			o.Classes = append([]string{"sweep"}, o.Classes...)
+			r.Record(c, o)
+			if o.Fail != "" {
+				t.Fatalf("C13: %s", o.Fail)
+			}
+			n++
+		}
 	}
 	// device paths and mount destinations are one id space
 	for _, c := range deviceAtMountSweep() {
